@@ -139,6 +139,8 @@ HOSTILE_SCALARS: list[Any] = [
     "2020-01-01", "now", "today", "2020-13-45", "1577836800", "first", "size", "last",
     # digit strings and timestamps beyond time_t / year 9999, markup that trips html.parser, malformed character references
     "9" * 30, "9" * 400, "-" + "9" * 25, "253402300800", "-62135596801", 2**31, 253402300800, -62135596801, "1e400",
+    # strings for which str.isdigit() / isnumeric() hold but int() fails, and digits of other scripts
+    "\u00b2", "\u2460\u2461\u2462", "20\u00b25", "\u00bd", "\u0664\u0662", "\uff11\uff12", "1\u00b2", "\u2082",
     "<![x]>", "<!x", "<?php", "<!DOCTYPE", "a<![CDATA[x]]>b", "<a b='c", "</", "<!--", "&#xZZ;", "&#99999999999;", "<![if x]>", "<!ELEMENT",
 ]
 
